@@ -46,7 +46,7 @@ def _task(args):
     except Exception:
         return dict(key=key, variant=variant, status="error", message=traceback.format_exc(), obligations=[], paths=0,
                     exits={}, secs=0.0, file="", lines=[0, 0], samples=[], inlined=[], modular=[], tabulated=[],
-                    dropped=[], cover={}, feasible_exits=0, solver_stats={})
+                    dropped=[], cover={}, feasible_exits=0, solver_stats={}, assumed=[])
 
 
 def sha256_of_lines(path, lo, hi):
@@ -55,6 +55,17 @@ def sha256_of_lines(path, lo, hi):
             lines = f.readlines()[lo - 1:hi]
         return hashlib.sha256("".join(lines).encode()).hexdigest()
     except OSError:
+        return ""
+
+
+def sha_of_key(key):
+    """sha256 of the current source text of the function named module:Qual.name ('' if it cannot be resolved)."""
+    try:
+        import inspect
+        from pyvc.contracts import resolve
+        fn = resolve(key)
+        return hashlib.sha256(inspect.getsource(fn).encode()).hexdigest()
+    except Exception:
         return ""
 
 
@@ -112,9 +123,54 @@ def finish(pid, tier, seed, reg, results, wall):
             missing = set(ent["obligations"]) - by_fv.get(fv, set())
             if missing and r["status"] == "ok":
                 inv_problems.append("%s: %d obligations of the baseline inventory were not generated (%s ...)" % (fv, len(missing), sorted(missing)[0]))
+    # ---- which (function, variant)s were verified against CHANGED source text (w.r.t. the committed baseline inventory)?
+    changed_fv = {}
+    for r in results:
+        fv = "%s[%s]" % (r["key"], r["variant"])
+        ent = inventory.get(fv)
+        if not ent:
+            continue
+        h = sha256_of_lines(r["file"], r["lines"][0], r["lines"][1])
+        why = []
+        if ent.get("sha256") and h and ent["sha256"] != h:
+            why.append(r["key"])
+        for dep, dsha in (ent.get("deps") or {}).items():
+            cur = sha_of_key(dep)
+            if cur and dsha and cur != dsha:
+                why.append(dep)
+        if why:
+            changed_fv[fv] = why
     violations = []
     known_lines = []
     undecided_msgs = []
+    lost = []   # obligations discharged on the baseline that are no longer discharged for a CHANGED function (no counter-model)
+    for a in list(unknown):
+        fv = "%s[%s]" % (a["func"], a["variant"])
+        if fv in changed_fv and a["name"] in set(inventory[fv]["obligations"]):
+            unknown.remove(a)
+            lost.append((a, "solver answered 'unknown' within the budget (z3 / cvc5 portfolio); changed source: %s" % ", ".join(changed_fv[fv])))
+    for a in list(model_limit_failed):
+        fv = "%s[%s]" % (a["func"], a["variant"])
+        if a["kind"] == "lemma" and fv in changed_fv and a["name"] in set(inventory[fv]["obligations"]):
+            model_limit_failed.remove(a)
+            lost.append((a, "proof step (lemma) of the baseline proof is refuted after the change; changed source: %s" % ", ".join(changed_fv[fv])))
+    for r in list(unsupported):
+        fv = "%s[%s]" % (r["key"], r["variant"])
+        if fv in changed_fv and inventory[fv]["obligations"]:
+            have = {o["name"] for o in r["obligations"] if o["status"] == "sat"}
+            if have:
+                unsupported.remove(r)
+                continue      # the bounded refutation already produced counter-models for this function
+            unsupported.remove(r)
+            a = dict(name="%s:not_generated" % fv, func=r["key"], variant=r["variant"], kind="not_generated",
+                     label="%d obligations discharged on the baseline can no longer be generated" % len(inventory[fv]["obligations"]),
+                     model=None, line=r["lines"][0])
+            lost.append((a, "the changed function left the verified subset: %s; changed source: %s" % (r["message"][:300], ", ".join(changed_fv[fv]))))
+    for a, reason in lost:
+        rep = dict(function=a["func"], obligation=a["name"], kind=a["kind"], label=a["label"], line=a.get("line"), model=None,
+                   verdict="no_model", detail=reason, args_native=None)
+        path = rp.write_replay(pid, a, rep)
+        violations.append("VIOLATION property=%s replay=%s no-failing-input-found" % (pid, path))
     for a in failed:
         c = reg.contracts[a["func"]]
         rep = rp.replay_obligation(c, a, pid)
@@ -173,6 +229,8 @@ def finish(pid, tier, seed, reg, results, wall):
         c = reg.contracts[r["key"]]
         for s in c.assumptions:
             assumptions.add("%s: %s" % (r["key"], s))
+        for s in r.get("assumed", []):
+            assumptions.add("%s: %s" % (r["key"], s))
         for t in r.get("tabulated", []):
             trusted.add("finite-domain native tabulation of pure enum method %s (real code executed on every member)" % t)
         for m in r.get("modular", []):
@@ -228,6 +286,8 @@ def finish(pid, tier, seed, reg, results, wall):
     # ---- report
     print("property %s tier=%s: %d obligations (%d path VCs), %d discharged, %d functions x variants, %.1fs" % (
         pid, tier, n_ob, ev["coverage"]["path_vcs"], n_dis, len(results), wall))
+    slow = sorted(results, key=lambda r: -r.get("secs", 0))[:3]
+    print("slowest: " + ", ".join("%s[%s] %.0fs" % (r["key"].split(":")[-1], r["variant"], r.get("secs", 0)) for r in slow))
     for r in errors:
         print("CHECKER-ERROR %s[%s]: %s" % (r["key"], r["variant"], r["message"][-1500:]))
     for m in inv_problems:
@@ -248,10 +308,12 @@ def write_inventory(pid, ev):
     inv = json.load(open(inv_path)) if os.path.exists(inv_path) else {}
     cur = {}
     names = ev["coverage"]["_all_obligations"]
+    deps = {k: sha_of_key(k) for k in ev["coverage"].get("inlined_callees", [])}
     for f in ev["coverage"]["functions_under_contract"]:
         for v in f["variants"]:
             fv = "%s[%s]" % (f["function"], v)
-            cur[fv] = dict(sha256=f["sha256"], obligations=sorted(n for n in names if n.startswith(fv + ":")))
+            cur[fv] = dict(sha256=f["sha256"], obligations=sorted(n for n in names if n.startswith(fv + ":")),
+                           deps={k: h for k, h in deps.items() if h and k != f["function"]})
     inv[pid] = cur
     with open(inv_path, "w") as fh:
         json.dump(inv, fh, indent=0, sort_keys=True)
